@@ -836,7 +836,16 @@ C02.manifest = {
             "filters of get_all_edges with NodeNotFound / WrongMethod as specified (C02_has_nodes, C02_*_for_nodes); the "
             "name<->position lookups are mutually inverse views of the node list (C02_name_position) and the name-keyed "
             "maps handed out by get_successors_map / get_predecessors_map list, duplicate-free, exactly the names joined by "
-            "a stored group (C02_successors_map, C02_predecessors_map). All of it is also tied to the code by the "
+            "a stored group (C02_successors_map, C02_predecessors_map). INSERTION ORDER of parallel edges (deep14, "
+            "Proofs/InsertionOrder.v): one accepted add_edge on a multigraph APPENDS the edge, in storage orientation, to the "
+            "list stored between its own pair and leaves every other pair's list alone (C02_parallel_edges_insertion_order_step; "
+            "single-edge graphs: KeepFirst keeps, KeepLast replaces, C02_single_edge_step; dropped self-loops, errors, "
+            "add_node(s) change no list, C02_other_calls_keep_order; batches fold the step up to the first failure, "
+            "C02_batch_insertion_order_step); for EVERY history from new(specs) the list get_edges returns for a pair is exactly "
+            "the history's add_edge calls that returned Ok (not dropped) on that pair, in CALL ORDER (the first / last of them on "
+            "a single-edge graph): C02_parallel_edges_insertion_order_history, C02_get_edges_history, C02_single_edge_kept_history; "
+            "when every call returned Ok, and for new_from_nodes_and_edges, this is computed from the caller's edge list alone "
+            "(C02_insertion_order_all_ok, C02_new_from_insertion_order, C02_new_from_get_edges). All of it is also tied to the code by the "
             "correspondence and recomputed from the public node/edge lists by an independent oracle on every history.",
     "note": "Axioms: none. BFS is still ALSO compared per case (model vs code, and the oracle's own reachability). "
             "Defect F3 (directed self-loop listed twice) repaired by a fix: commit.",
@@ -860,7 +869,10 @@ C09.manifest = {
             "get_sparse_adjacency_matrix (single-edge graphs): a triplet (i,j,w) is emitted iff an edge is stored "
             "between the i-th and the j-th node (either orientation when undirected), w = its weight (1.0 when "
             "unweighted), and the matrix is symmetric when undirected (C09_matrix, C09_matrix_symmetric; needs the "
-            "WF clause wf_emkeys: the edge store has duplicate-free keys, proved for every reachable state).",
+            "WF clause wf_emkeys: the edge store has duplicate-free keys, proved for every reachable state). The six "
+            "*_for_all_nodes maps: keys = node names in node order, every entry (x, d) is the per-node function's answer "
+            "Ok(Some d) (C09_degree_maps_values, any state), closed forms on a coherent state (C09_degree_maps_exact, "
+            "C09_weighted_degree_map_exact).",
     "note": "Axioms: none. Not proved: float rounding of the weighted sums (modelled exactly; the implementation sums "
             "sorted so that the order cannot matter, compared at 1e-9). Each matrix position is emitted at most once "
             "(C09_matrix_positions_once), so summing repeated positions in the CSR conversion cannot change a value. "
